@@ -1,7 +1,7 @@
 /-
 Structural tie for property C15 (DESIGN 1.4).  `Goat/Tie/ExtractedC15.lean` is regenerated on every
 run of `./check C15` by `harness/cmd/mutex facts` (go/ast) from the Go sources under test; the
-theorems below compare it with what the model `Goat/Model/Mutex.lean` assumes.  They fail by name
+theorems below compare it with what the models `Goat/Model/Mutex.lean` and `Goat/Model/MutexTasks.lean` assume.  They fail by name
 when the synchronisation skeleton of the code moves.  Syntactic check (trusted as such).
 -/
 import Goat.Tie.ExtractedC15
@@ -50,5 +50,50 @@ theorem tie_mutex_unlock : ExtractedC15.unlockHandlerUnlock = expectedUnlock := 
 theorem tie_runner_brackets :
     bracketed "call runner.deps.SharedMutex.Lock(task.LockMap())" "defer unlockHandler.Unlock"
       "call sandbox.Run(childCtx)" ExtractedC15.runnerRunGo = true := by decide
+
+/-! ### the tasks layer (`Goat/Model/MutexTasks.lean`) -/
+
+/-- `Runner.waitForTasks`: one loop over the wait list; each named task is looked up, awaited
+(`Wait` blocks until that task has closed), and the loop returns an error at the first task that
+ended with errors; nothing else synchronises. -/
+def expectedWaitForTasks : List String := [
+  "for range task.WaitList()",
+  "call tasksManager.Get(taskName)",
+  "if !ok",
+  "return",
+  "end",
+  "call relatedTask.Wait",
+  "if err != nil",
+  "return",
+  "end",
+  "call relatedTask.Errors",
+  "if len(relatedTask.Errors()) != 0",
+  "return",
+  "end",
+  "end",
+  "return"]
+
+def waitCall : String := "call runner.waitForTasks(task, tasksManager)"
+def lockCall : String := "call runner.deps.SharedMutex.Lock(task.LockMap())"
+
+/-- in `xs` the call of `waitForTasks` with its error return comes first, the call of
+`SharedMutex.Lock` occurs only after it -/
+def waitsThenLocks : List String → Bool
+  | a :: b :: c :: d :: rest =>
+    (a == waitCall && b == "if err != nil" && c == "return" && d == "end" && rest.contains lockCall) ||
+      (a != lockCall && waitsThenLocks (b :: c :: d :: rest))
+  | _ => false
+
+theorem tie_runner_wait_loop : ExtractedC15.runnerWaitForTasks = expectedWaitForTasks := by decide
+
+/-- `Runner.runGo` goes through `waitForTasks` — returning when it fails — BEFORE it takes the task's
+lock map (`MutexTasks.tsys`, not `tsysSwapped`) -/
+theorem tie_runner_waits_before_lock : waitsThenLocks ExtractedC15.runnerRunGo = true := by decide
+
+/-- `task.Close` (the completion latch other tasks wait on) is the first deferred call of `runGo`,
+hence runs after the deferred `Unlock`: a task that has ended holds nothing -/
+theorem tie_runner_closes_after_unlock :
+    ExtractedC15.runnerRunGo.head? = some "defer task.Close" ∧
+      ExtractedC15.runnerRunGo.contains "defer unlockHandler.Unlock" = true := by decide
 
 end Goat.Tie.C15
